@@ -9,6 +9,8 @@ mod alloc;
 mod amftext;
 mod refcodec;
 mod fam_amf;
+mod refchunk;
+mod fam_chunk;
 
 #[global_allocator]
 static GLOBAL: alloc::Counting = alloc::Counting;
@@ -16,9 +18,13 @@ static GLOBAL: alloc::Counting = alloc::Counting;
 use std::io::{BufRead, Write};
 use std::panic::{catch_unwind, AssertUnwindSafe};
 
-#[derive(Default)]
 pub struct State {
     dead: bool,
+    chunk: fam_chunk::ChunkSt,
+}
+
+impl Default for State {
+    fn default() -> Self { State { dead: false, chunk: fam_chunk::ChunkSt::new() } }
 }
 
 fn exec(st: &mut State, toks: &[&str]) -> String {
@@ -40,10 +46,11 @@ fn exec(st: &mut State, toks: &[&str]) -> String {
         ["!amf.trunc", v] => fam_amf::trunc(v),
         ["!amf.marker", m, tail] => fam_amf::marker(m.parse().unwrap_or(0), tail),
         ["!amf.adv", kind, n, kb] => fam_amf::adversarial(kind, n.parse().unwrap_or(0), kb.parse().unwrap_or(512)),
-        _ => {
-            let _ = st;
-            "bad-op".into()
-        }
+        ["note", ..] => "note".into(),
+        _ => match fam_chunk::op(&mut st.chunk, toks) {
+            Some(s) => s,
+            None => "bad-op".into(),
+        },
     }
 }
 
